@@ -6,3 +6,4 @@ import BV.C16.Address
 import BV.C16.Keys
 import BV.C16.Taproot
 import BV.C16.Base58Algo
+import BV.C16.Extra
